@@ -171,6 +171,7 @@ def base_scenarios():
     S.append(Sc('cli', 'pa', [d(0, frame(H_HEADERS, RESP_200)), ('F', 0)] + cctl(), 'response-before-control'))
     S.append(Sc('cli', 'pa+m100', cctl() + [d(0, frame(H_HEADERS, RESP_200), frame(H_DATA, bytes(range(256)) * 3))], 'open-ended'))
     S.append(Sc('cli', 'pa+g', cctl(frame(H_CANCEL, vi(0))) + [d(0, frame(H_HEADERS, RESP_200)), ('F', 0)], 'cancel-push'))
+    S.append(Sc('cli', 'pa', cctl() + [('B', 1), d(1, frame(H_HEADERS, REQ_GET)), d(0, frame(H_HEADERS, RESP_200)), ('F', 1), ('F', 0)], 'server-bidi'))
     S.append(Sc('cli', 'pa', cctl() + [d(0, frame(H_HEADERS, RESP_200_H), frame(H_DATA, b'abc'), frame(H_HEADERS, TRAILERS_H)), ('F', 0)], 'huffman'))
     return S
 
@@ -240,10 +241,10 @@ CLOSE_CODES = [0, 0x100, 0x101, 0x1, 2 ** 62 - 1]
 def fault_variants(sid, rng, k):
     """the k-th fault kind on stream sid"""
     return ['%d:F' % sid, '%d:R%d' % (sid, rng.choice(RESET_CODES)), '%d:S%d' % (sid, rng.choice(RESET_CODES)),
-            'X%d' % rng.choice(CLOSE_CODES), 'T', 'I'][k]
+            'X%d' % rng.choice(CLOSE_CODES), 'T', 'I', 'XU', '%d:K' % sid][k]
 
 
-def with_faults(sc, mode, rng, kinds=(0, 1, 2, 3, 4), sched='each', tag='flt'):
+def with_faults(sc, mode, rng, kinds=(0, 1, 2, 3, 4, 6, 7), sched='each', tag='flt'):
     """a fault of every kind at EVERY step index of the scenario"""
     evs = events_of(sc, mode, rng)
     ids = sc.streams()
@@ -255,7 +256,7 @@ def with_faults(sc, mode, rng, kinds=(0, 1, 2, 3, 4), sched='each', tag='flt'):
         if len(ids) > 1:
             targets.append(ids[(ids.index(here) + 1) % len(ids)])
         for k in kinds:
-            for t in (targets if k < 3 else targets[:1]):
+            for t in (targets if k < 3 or k == 7 else targets[:1]):
                 f = fault_variants(t, rng, k)
                 new = evs[:i] + [(f, t)] + evs[i:]
                 out.append(line(sc.role, sc.opts, new, sched, rng, tag))
@@ -512,7 +513,7 @@ def backpressure_cases(bases, rng, rounds):
                 # a fault while writes are pending: STOP_SENDING / RESET on a request or own stream, connection close
                 i = rng.randint(0, len(new))
                 sid = rng.choice(own + reqs)
-                new.insert(i, (fault_variants(sid, rng, rng.choice([1, 2, 2, 2, 3, 4])), sid))
+                new.insert(i, (fault_variants(sid, rng, rng.choice([1, 2, 2, 2, 3, 4, 6, 7])), sid))
             out.append(line(sc.role, opts, new, 'each', rng, 'bp'))
     # the W* form (default budget of streams opened later), every k, before anything runs
     for role, ctlid in (('srv', 2), ('cli', 3)):
@@ -528,14 +529,14 @@ def own_stream_fault_cases(bases, rng):
         evs = events_of(sc, 'one', rng)
         for i in range(len(evs) + 1):
             for sid in OWN_STREAMS[sc.role]:
-                kind = rng.choice([1, 2, 2])
+                kind = rng.choice([1, 2, 2, 7])
                 new = evs[:i] + [(fault_variants(sid, rng, kind), sid)] + evs[i:]
                 out.append(line(sc.role, sc.opts, new, 'each', rng, 'own'))
     return out
 
 
 APP_OPTS = {'srv': ['t', 's', 'x', 'y', 't+s', 's+x', 'k0', 'k1', 'k2', 'k1+t', 'x+y', 'pb+s+t'],
-            'cli': ['t', 's', 'x', 'y', 'b+t', 'b+t+s', 'd', 'n2+d', 's+x', 'b+y']}
+            'cli': ['t', 's', 'x', 'y', 'b+t', 'b+t+s', 'd', 'n2+d', 's+x', 'b+y', 'c', 'n2+c', 'n2+c+d', 'n3+c+d+b']}
 
 
 def app_cases(bases, rng, rounds):
@@ -551,7 +552,7 @@ def app_cases(bases, rng, rounds):
                     if evs:
                         i = rng.randint(0, len(evs))
                         t = evs[min(i, len(evs) - 1)][1]
-                        evs = evs[:i] + [(fault_variants(t, rng, rng.randint(0, 4)), t)] + evs[i:]
+                        evs = evs[:i] + [(fault_variants(t, rng, rng.choice([0, 1, 2, 3, 4, 6, 7])), t)] + evs[i:]
                 out.append(line(sc.role, opts, evs, rng.choice(['each', 'each', 'rand']), rng, 'app'))
     return out
 
@@ -590,7 +591,7 @@ def wt_cases(rng, rounds):
                         if r > 0 and rng.random() < 0.5:
                             i = rng.randint(0, len(evs))
                             t = evs[min(i, len(evs) - 1)][1]
-                            evs = evs[:i] + [(fault_variants(t, rng, rng.randint(0, 4)), t)] + evs[i:]
+                            evs = evs[:i] + [(fault_variants(t, rng, rng.choice([0, 1, 2, 3, 4, 6, 7])), t)] + evs[i:]
                         opts = 'pa+%s%d%s' % (mode, k, '+ab' if bidi else '')
                         out.append(line('wts', opts, evs, rng.choice(['each', 'end', 'rand']), rng, 'wt'))
     return out
@@ -604,7 +605,7 @@ class P(Property):
     id = 'C06'
     # every generated-facts file in the Coq closure of Properties/C06.v is regenerated from the working tree on each run
     gen_modules = ['gen_panicsites', 'gen_varint', 'gen_codes', 'gen_datagram', 'gen_frames', 'gen_headers', 'gen_huffman',
-                   'gen_huffman_enc', 'gen_bitwin', 'gen_prefixint', 'gen_prefixstring', 'gen_qstateless', 'gen_settings',
+                   'gen_huffman_enc', 'gen_bitwin', 'gen_huffiter', 'gen_prefixint', 'gen_prefixstring', 'gen_qstateless', 'gen_settings',
                    'gen_sharederr', 'gen_static', 'gen_unistreams']
     properties_v = 'Properties/C06.v'
     model_targets = ['Spec/C06Liveness.vo']
@@ -612,8 +613,9 @@ class P(Property):
     driver_ml = 'C06_driver.ml'
     harness_bin = 'c06'
     rule = ('adversarial scripted peer against the real server and client connection objects over SimQuic, application following the '
-            'documented call pattern (two orders per role): 20 base scenarios x {per-frame, 1-byte, random} delivery x a fault '
-            '(FIN, RESET code, STOP_SENDING code, connection close code, idle timeout) inserted at EVERY step index; grammar-directed mutants '
+            'documented call pattern (two orders per role): 23 base scenarios x {per-frame, 1-byte, random} delivery x a fault '
+            '(FIN, RESET code, STOP_SENDING code, connection close code, idle timeout, transport error unknown to h3 (XU), receive half failing with '
+            'StreamErrorIncoming::Unknown (K)) inserted at EVERY step index; K on a control / QPACK stream must give exactly the result of a RESET there;  grammar-directed mutants '
             '(bit flip, insert, delete, truncate, frame duplicate/swap/drop, foreign/forbidden/short/long fixed-field frames, length varints '
             'from {0, L-1, L+1, 2^14.., 2^30.., 2^32-1, 2^32, 2^62-1} in every varint form, hostile QPACK field sections, non-minimal varints, '
             'random tails) with and without a fault; random byte streams on control / QPACK / unknown / request streams; 24576..40000 field lines; '
@@ -658,10 +660,10 @@ class P(Property):
         # 2. a fault at every step index (exhaustive over step index)
         for sc in bases:
             out += with_faults(sc, 'one', rng)
-            out += with_faults(sc, 'byte', rng, kinds=(0, 1, 3) if quick else (0, 1, 2, 3, 4, 5))
+            out += with_faults(sc, 'byte', rng, kinds=(0, 1, 3) if quick else (0, 1, 2, 3, 4, 5, 6, 7))
             if not quick:
                 for _ in range(6):
-                    out += with_faults(sc, 'rand', rng, kinds=(0, 1, 2, 3, 4, 5))
+                    out += with_faults(sc, 'rand', rng, kinds=(0, 1, 2, 3, 4, 5, 6, 7))
                 out += with_faults(sc, 'one', rng, sched='end')
                 out += with_faults(sc, 'byte', rng, sched='rand')
         # 3. grammar-directed mutants
@@ -676,7 +678,7 @@ class P(Property):
             if rng.random() < 0.35 and evs:
                 i = rng.randint(0, len(evs))
                 t = evs[min(i, len(evs) - 1)][1]
-                evs = evs[:i] + [(fault_variants(t, rng, rng.randint(0, 5)), t)] + evs[i:]
+                evs = evs[:i] + [(fault_variants(t, rng, rng.randint(0, 7)), t)] + evs[i:]
             out.append(line(sc.role, sc.opts, evs, sched, rng, 'mut'))
         # 3b. mutants with a fault at every step index (fewer)
         for n in range(40 if quick else 4000):
@@ -689,7 +691,7 @@ class P(Property):
             if rng.random() < 0.3 and evs:
                 i = rng.randint(0, len(evs))
                 t = evs[min(i, len(evs) - 1)][1]
-                evs = evs[:i] + [(fault_variants(t, rng, rng.randint(0, 5)), t)] + evs[i:]
+                evs = evs[:i] + [(fault_variants(t, rng, rng.randint(0, 7)), t)] + evs[i:]
             out.append(line(sc.role, sc.opts, evs, rng.choice(['each', 'end', 'rand']), rng, 'rnd'))
         # 5. large inputs
         out += big_cases(tier)
@@ -773,7 +775,7 @@ class P(Property):
         evs = w[3].split(',') if len(w) > 3 else []
         real = [e for e in evs if e != '~']
         for i, e in enumerate(real[:-1]):
-            if re.match(r'^(\d+:[FRS]\d*|X\d+|T|I)$', e):
+            if re.match(r'^(\d+:[FRSK]\d*|X\d+|XU|T|I)$', e):
                 return case
         return None
 
@@ -804,7 +806,41 @@ class P(Property):
         return [c for c in out if c != case][:64]
 
     # ---------------------------------------------------------------- extra: name the unclassified panic sites
+    def twin_checks(self, ctx):
+        """quic.rs: StreamErrorIncoming::Unknown is to be handled exactly like StreamTerminated.  For the critical streams
+        (control, QPACK encoder / decoder) the reset code plays no role, so every case with `<id>:K` there must give exactly
+        the result of the same case with `<id>:R0`."""
+        crit = {'srv': ('2', '6', '10'), 'wts': ('2', '6', '10'), 'cli': ('3', '7', '11')}
+        pairs = []
+        for (c, i, m, sp) in ctx['rows']:
+            w = c.split()
+            if len(w) < 4 or ':K' not in w[3]:
+                continue
+            evs = w[3].split(',')
+            ks = [e for e in evs if e.endswith(':K')]
+            if not ks or any(e.split(':')[0] not in crit.get(w[1], ()) for e in ks):
+                continue
+            twin = ' '.join(w[:3] + [','.join(e[:-1] + 'R0' if e.endswith(':K') else e for e in evs)] + w[4:])
+            pairs.append((c, i, twin))
+            if len(pairs) >= 4000:
+                break
+        if not pairs:
+            return []
+        import core
+        outs = core.run_cases(ctx['bins'][self.harness_bin], [p[2] for p in pairs], env=self.impl_env())
+        bad = []
+        for (c, i, twin), o in zip(pairs, outs):
+            if i != o:
+                bad.append(('property-fails-on-input', {'input': c, 'impl': i, 'model': 'twin with RESET: ' + o, 'spec': 'Unknown on a critical stream must be handled exactly like StreamTerminated (quic.rs); twin case: ' + twin}))
+                if len(bad) >= 2:
+                    break
+        self._twins = len(pairs)
+        return bad
+
     def extra_checks(self, ctx):
+        return self.twin_checks(ctx) + self.inventory_checks(ctx)
+
+    def inventory_checks(self, ctx):
         """When the Rust source gained / moved a panic-capable site the Coq obligation C06_panic_sites_all_reviewed is
         already broken (=> VIOLATION by core); here the new rows are named in the log for the replay file."""
         try:
